@@ -47,7 +47,8 @@ def _rawmember():
                                                                     "ovs": ovs, "doc": doc, "ovvis": ovvis},
                        vis, st.booleans(), st.booleans(), st.sampled_from([0, 0, 0, 1, 1, 2]), st.lists(_rawsig(), min_size=1, max_size=3),
                        st.integers(0, 3), st.lists(st.sampled_from([None, None, 0, 1, 2, 3]), max_size=3))
-    override = st.builds(lambda v, pick, j: {"m": "override", "vis": v, "pick": pick, "j": j}, vis, st.integers(0, 50), st.integers(0, 5))
+    override = st.builds(lambda v, pick, j, flip: {"m": "override", "vis": v, "pick": pick, "j": j, "flip": flip}, vis, st.integers(0, 50), st.integers(0, 5),
+                         st.sampled_from([False, False, False, True]))
     ctor = st.builds(lambda v, ps, ex, form, dv: {"m": "ctor", "vis": v, "params": ps, "explicit": ex, "form": form, "dv": dv},
                      vis, st.lists(_rawtype(), max_size=3), st.booleans(), st.sampled_from([0, 0, 0, 1, 2]), st.integers(0, 1000))
     dtor = st.builds(lambda v, virt, form: {"m": "dtor", "vis": v, "virt": virt, "form": form}, st.sampled_from([0, 1, 1, 1, 2, 3]),
@@ -115,6 +116,25 @@ def raw_libraries(max_classes=5, max_funcs=5):
 
 # ---- model ------------------------------------------------------------------------------------------------
 
+def with_arith_family(raw, pairs=False):
+    """adds two free functions overloaded over the arithmetic types at one position (narrow next to wide: short/int/long long,
+    float/double, the char kinds, bool): wrappers must keep the declared parameter type or the wrong overload runs"""
+    raw = dict(raw)
+
+    def prim(i):
+        return {"k": "prim", "p": i}
+    if pairs:
+        # narrow/wide pairs only: a wrapper that forgets the declared type still compiles, but runs the other overload
+        fams = [[{"params": [prim(i)], "ret": prim(6), "ndef": 0, "dv": 0} for i in pr] for pr in ((4, 6), (12, 13), (2, 6))]
+        fams.append([{"params": [prim(6), prim(i)], "ret": prim(13), "ndef": 0, "dv": 0} for i in (5, 7)])
+        raw["funcs"] = list(raw.get("funcs", [])) + [{"ovs": f, "file": 0, "inpub": True, "doc": 0} for f in fams]
+        return raw
+    fam = [{"params": [prim(i)], "ret": prim(6), "ndef": 0, "dv": 0} for i in (4, 6, 12, 13, 2, 3, 10, 0)]
+    fam2 = [{"params": [prim(6), prim(i)], "ret": prim(13), "ndef": 0, "dv": 0} for i in (5, 7, 9, 12, 13, 1)]
+    raw["funcs"] = list(raw.get("funcs", [])) + [{"ovs": fam, "file": 0, "inpub": True, "doc": 0}, {"ovs": fam2, "file": 0, "inpub": True, "doc": 0}]
+    return raw
+
+
 class Type:
     """resolved type.  kind: void prim enum cstr str obj"""
 
@@ -130,7 +150,7 @@ class Type:
         if self.kind == "enum":
             return "::" + self.ref["qname"]
         if self.kind == "cstr":
-            return "const char *"
+            return "VfCStr" if getattr(self, "alias", False) else "const char *"
         if self.kind == "str":
             return "std::string" if self.mode == 0 else "const std::string &"
         q = "::" + self.ref["qname"]
@@ -400,6 +420,22 @@ def build(raw, opts=None):
                 bts = list(base_m["ovs"][j]["params"]) + [base_m["ovs"][j]["ret"]]
                 if any(t.kind == "enum" and t.ref.get("cls") is not None and t.ref["vis"] not in ("published", "public") for t in bts):
                     continue          # the base's non-public nested enum cannot be named in the derived class
+                if rm.get("flip") and not lib.py_distinct:
+                    # same name and parameters as the base's virtual but the other const-qualification: NOT an override, a method of
+                    # its own that merely hides the base's
+                    if any(x["kind"] == "method" and x["name"] == base_m["name"] for x in c["members"]):
+                        continue          # one method of that name per class: flipped hider or true overrides, not both
+                    e = lib.ent(kind="method", cls=c, vis=VIS[rm["vis"]], static=False, const=not base_m.get("const", False), virt="",
+                                file=c["file"], doc=0, flipped=True, name_id=base_m["id"])
+                    e["name"] = base_m["name"]
+                    bov = base_m["ovs"][j]
+                    e["ovs"] = [{"ov": 0, "params": list(bov["params"]), "pnames": list(bov["pnames"]), "defaults": [None] * len(bov["params"]),
+                                 "ret": bov["ret"], "vis": e["vis"]}]
+                    c["members"].append(e)
+                    lib.features.add("class.const_flipped_hider")
+                    continue
+                if any(x["kind"] == "method" and x["name"] == base_m["name"] and x.get("flipped") for x in c["members"]):
+                    continue
                 e = lib.ent(kind="method", cls=c, vis=VIS[rm["vis"]], static=False, const=base_m.get("const", False), virt="virtual",
                             file=c["file"], doc=0, overrides=(base_m["id"], j), base_method=base_m)
                 e["name"] = base_m["name"]
@@ -627,6 +663,13 @@ def _sigs(lib, rawsigs, rtype, ent):
         ovd = {"ov": len(out), "params": params, "pnames": ["a%d" % i for i in range(len(params))], "defaults": defaults, "ret": ret}
         if lib.impl_mode:
             impl_normalise_sig(ovd, None if ent.get("static") else ent.get("cls"))
+            # C strings are sometimes spelled through a typedef (typedef const char *VfCStr;)
+            if ovd["ret"].kind == "cstr" and (ent["id"] + len(out)) % 2 == 0:
+                ovd["ret"].alias = True
+            for i, p in enumerate(params):
+                if p.kind == "cstr" and (ent["id"] + i) % 3 == 0:
+                    p.alias = True
+                    lib.features.add("type.typedef_cstr")
         out.append(ovd)
         if ndef:
             lib.features.add("api.default")
@@ -666,7 +709,7 @@ def _sig_text(name, ov, with_defaults=True):
 
 
 def _render(lib, opts):
-    pre = '#include <verif_prelude.h>\n#include <verif_rt.h>\n#include <string>\n'
+    pre = '#include <verif_prelude.h>\n#include <verif_rt.h>\n#include <string>\ntypedef const char *VfCStr;\n'
     per_file = {f: [] for f in FILES}
     fwd = []
     for c in lib.classes:
